@@ -51,7 +51,22 @@ def impl_run_stats(cv, vals):
     return out
 
 
-def oracle_stats(cv, vals):
+EMPTY_OK = ('sum', 'len', 'lambda')       # reducing functions that are defined on an empty selection
+
+
+def gapped_label_vectors(maxlen):
+    """labellings in which a label below the maximum is ABSENT (a cycle rejected by overwriting its samples with -1 without
+    renumbering): every vector over {-1,0,1,2,3} up to maxlen with an incomplete label set"""
+    out = []
+    for n in range(1, maxlen + 1):
+        for v in itertools.product([-1, 0, 1, 2, 3], repeat=n):
+            labs = set(x for x in v if x >= 0)
+            if labs and labs != set(range(max(labs) + 1)):
+                out.append(list(v))
+    return out
+
+
+def oracle_stats(cv, vals, only=None):
     """the property on get_cycle_stat for float, integer and boolean value vectors (any value vector, any function)"""
     from emd import cycles
     fails = []
@@ -60,6 +75,8 @@ def oracle_stats(cv, vals):
     for dt in (float, np.int64, np.int32, bool):
         v = np.array(vals).astype(dt)
         for name, f in FUNCS + [('mean', np.mean)]:
+            if only is not None and name not in only:
+                continue
             try:
                 got = cycles.get_cycle_stat(c, v, func=f)
                 proj = cycles.get_cycle_stat(c, v, out='samples', func=f)
@@ -282,11 +299,11 @@ def oracle_align_history(ctx, n):
 def run(ctx):
     maxlen = 6 if ctx.quick() else 8
     ctx.rule = ('(1) every label vector over {-1,0,1,2} of length <= %d whose labels are 0..max (gaps, interleaved and unordered labels '
-                'included) x 6 reducing functions + sample projection, exact; (2) bin_by_phase on random integer edges/phases/values '
+                'included) x 6 reducing functions + sample projection, exact; (1b) labellings with an ABSENT label below the maximum (every vector over {-1..3} up to length %d + random rejected cycles) x {sum, len, lambda}; (2) bin_by_phase on random integer edges/phases/values '
                 '(incl. phases on edges, below, above) and on default edges with nbins 2..64; (3) phase_align on cycles of 2..%d '
                 'samples with dyadic increasing phases vs exact rational interpolation, and linear-in-phase quantities; '
                 'non-trivial = has a gap or >= 2 cycles / populated last bin / extrapolated grid points'
-                % (maxlen, 60 if ctx.quick() else 400))
+                % (maxlen, 4 if ctx.quick() else 6, 60 if ctx.quick() else 400))
     ctx.proof(extra=['props/Prop_Tie_Cyclestat.v', 'props/Prop_Tie_Rest.v'])  # translation tie: program regenerated from the source + refinement theorems
     # (1)
     lvs = label_vectors(maxlen)
@@ -311,6 +328,22 @@ def run(ctx):
         if common.hashL(out) != mh[idx] and bad is None and not fails:
             bad = ('run_stats', dict(cycles=cv, values=vals), out)
     ctx.sample(dict(cycles=cases[777][0], values=cases[777][1]))
+    # (1b) "any labelling": a label below the maximum may be absent; functions defined on an empty selection (oracle only: the
+    # model's max of nothing is a sentinel where numpy raises)
+    glv = gapped_label_vectors(4 if ctx.quick() else 6)
+    for _ in range(60 if ctx.quick() else 2000):
+        K = ctx.rng.randint(2, 6)
+        drop = ctx.rng.randrange(0, K - 1)
+        v = []
+        for k in range(K):
+            v += [-1] * ctx.rng.choice([0, 0, 1, 3]) + [k if k != drop else -1] * ctx.rng.randint(1, 9)
+        glv.append(v)
+    for cv in glv:
+        vals = values_for(cv, 3)
+        ctx.count(('absent-label', tuple(cv)), True, 'stats-absent-label')
+        ctx.exact_cmp += 1
+        for site, detail in oracle_stats(cv, vals, only=EMPTY_OK)[:1]:
+            ctx.problem('impl-violation', site, detail, input=dict(cycles=cv, values=vals, only=list(EMPTY_OK)))
     # (2)
     bins = gen_bins(ctx, 400 if ctx.quick() else 10000)
     mo = ctx.model_outputs(IMPORTS, ['(%s, %s, %s)' % (zlist(e), zlist(i), zlist(x)) for e, i, x in bins],
@@ -368,7 +401,7 @@ def replay(rec):
         print(float(np.abs(second - fresh).max()))
         return not np.allclose(second, fresh, rtol=1e-9, atol=1e-9)
     if 'values' in i:
-        f = oracle_stats(i['cycles'], i['values'])
+        f = oracle_stats(i['cycles'], i['values'], only=i.get('only'))
         print(f)
         return bool(f)
     if 'bin_edges' in i:
